@@ -93,6 +93,14 @@ func c08Item(r *rand.Rand, sel int, tier string) Ev {
 		}
 	}
 	ptr := []int{0, 0, 0, 1, 2, 5}[r.Intn(6)]
+	if sel == 8 {
+		// pointer_field 71 (what a sync byte looks like); when the section is short enough it is padded to 116 bytes so
+		// that the whole payload is 188 bytes long
+		ptr = 71
+		if len(s.section()) <= 114 && len(s.AStuff) == 0 && !s.Enc {
+			growSig(r, &s, 116)
+		}
+	}
 	b := append(append([]byte{byte(ptr)}, bytes.Repeat([]byte{0xff}, ptr)...), s.section()...)
 	return Ev{"op": "decode", "abs": s.ev(), "ptr": ptr, "bytes": B(b)}
 }
